@@ -1,7 +1,7 @@
 from . import tokens
 from .tokens import Chars, OperatorType
 from ...scanner import Scanner
-from ...scanner_utils import is_number, is_alpha, is_alpha_word, is_alpha_numeric_word, is_quote, is_space
+from ...scanner_utils import is_number, is_alpha, is_alpha_word, is_alpha_numeric_word, is_quote, is_space, to_int
 
 OPERATOR_MAP = dict([
     (Chars.Sibling, OperatorType.Sibling),
@@ -58,7 +58,7 @@ def field(scanner: Scanner):
 
         if scanner.eat_while(is_number):
             # It’s a field
-            index = int(scanner.current())
+            index = to_int(scanner)
             name = consume_placeholder(scanner) if scanner.eat(Chars.Colon) else ''
         elif is_alpha(scanner.peek()):
             # It’s a variable
